@@ -133,6 +133,11 @@ let () =
                | _ -> [] in
              print_grid { g1 with gr_data = d }
            end
+         | "BDIST" ->
+           (* BDIST nd per.. lower.. upper.. width.. x.. *)
+           let nd = ni () in let per = List.init nd (fun _ -> ni () <> 0) in
+           let lower = nflist nd in let upper = nflist nd in let width = nflist nd in let xs = nflist nd in
+           Printf.printf "%s\n" (hex (bin_distance_from_boundaries fops per lower upper width xs))
          | "XBIN" ->
            (* XBIN nd {l u w period}.. : sizes, boundaries and flags of the grid shifted by half a bin (add_extra_bin) *)
            let nd = ni () in
